@@ -120,27 +120,28 @@ Print Assumptions C13_parse_escape_dotstar.
    get_ports / get_cables), at full strength *)
 Definition C13_full : Prop := filter_full_statement.
 
-(* refuted by the faithful model: get_instances(instance, ['a','a*']) yields the child a twice
-   (witness replayed on the implementation by harness/query_check.py) *)
-Theorem C13_refuted : ~ C13_full.
-Proof. exact filter_full_refuted. Qed.
-Print Assumptions C13_refuted.
+(* holds since the repair of findings C13-K1 / C13-K2 (every yield of the name-map stage consumes the
+   element; what the first stage yielded is kept apart).
+   lookups_ok: every lookup agrees with the linear scan that returns every child carrying the value
+   (for a registered lookup: the invariant of property C10; for the scan itself - user keys - trivially,
+   since the repair of C13-K5); patterns are non-empty strings. *)
+Theorem C13_full_holds : C13_full.
+Proof. exact filter_full. Qed.
+Print Assumptions C13_full_holds.
 
-(* what holds of C13_full: everything but "no duplicates" for the stage-B shapes of
-   get_instances / get_libraries / get_definitions.
-   lookups_ok: every registered lookup agrees with the linear scan and sibling values under the key
-   are pairwise different (the invariant of property C10); patterns are non-empty strings. *)
-Theorem C13_filter_partial :
-  forall ic ir key nk bk parents others pats,
-    lookups_ok key parents -> ~ In [] pats ->
-    let r := run_query ic ir key nk bk parents others pats in
-    (forall e, In e r <-> is_cand key nk parents others e /\ sel_match ic ir key pats e = true) /\
-    (bk = BNames true \/ others = [] -> NoDup r) /\
-    (forall pats', Permutation pats pats' -> forall e,
-        In e r <-> In e (run_query ic ir key nk bk parents others pats')) /\
-    r = run_query ic ir key nk bk (with_scan key parents) others pats.
-Proof. exact filter_partial. Qed.
-Print Assumptions C13_filter_partial.
+(* the former witnesses of the duplicate yields: get_instances(instance, ['a','a*']) (also in the
+   other order and with the pattern repeated), get_definitions / get_ports / get_cables likewise,
+   get_instances([definition, instance of it], 'a*'): one element named a, yielded once *)
+Example C13_former_duplicate_witnesses :
+  run_query true false w_key true BFound [] [0] w_pats = [0] /\
+  (run_query true false w_key true BFound [] [0] [s2l "a*"; s2l "a"] = [0] /\
+   run_query true false w_key true BFound [] [0] [s2l "a"; s2l "a"] = [0]) /\
+  run_query true false w_key false BNames [] [0] w_pats = [0] /\
+  run_query true false w_key true BFound [(Filter.scan_lookup w_key [0], [0])] [0] [s2l "a*"] = [0].
+Proof.
+  split; [exact witness_found_once|]. split; [exact witness_found_once_rev|].
+  split; [exact witness_names_once|exact witness_found_not_reiterated].
+Qed.
 
 Example C13_filter_hypotheses_satisfiable :
   lookups_ok x_key x_parents /\ ~ In [] [s2l "a[0]"; s2l "a*"].
@@ -187,8 +188,9 @@ Proof. exact x_hier. Qed.
                              (properties C01, C02), ids well-kinded, references point at definitions:
                              holds in every state reached by editing calls (C13_reachable_states);
                 LookOK s.. - under the chosen key global_service.lookup agrees with a linear scan
-                             and sibling values differ (property C10; for .NAME it follows from
-                             C10's table invariant, C13_lookup_hypothesis_for_names);
+                             returning every child that carries the value (for .NAME it follows from
+                             C10's table invariant, C13_lookup_hypothesis_for_names; for keys without a
+                             registered lookup it holds outright, C13_lookup_hypothesis_for_scanned_keys);
                 ~ In [] pats - the empty string is not a pattern;
                 "= WOk res"  - the run terminated within the fuel and did not raise.
    A root is any [item]: an element of any class, an outer pin, a detached outer pin, a hierarchical
@@ -199,9 +201,43 @@ Proof. exact reachable_qwf. Qed.
 Print Assumptions C13_reachable_states.
 
 Theorem C13_lookup_hypothesis_for_names : forall s reg r,
-  NsInv s -> ns_rel r = true -> (forall p, kids s r p <> [] -> nstab s p <> None) -> LookOK s reg str_NAME r.
+  NsInv s -> ns_rel r = true -> (forall p, NoDup (kids s r p)) -> LookOK s reg str_NAME r.
 Proof. exact lookok_name. Qed.
 Print Assumptions C13_lookup_hypothesis_for_names.
+
+(* under the DEFAULT policy the hypothesis holds for every other key, EDIF.identifier included: the
+   namespaces index names only, the registered lookup says so (NotImplemented) and
+   global_service.lookup scans (finding C13-K3 repaired: it used to answer "nothing") *)
+Theorem C13_lookup_hypothesis_default_policy : forall s reg k r,
+  (forall p t, nstab s p = Some t -> ns_pol t = PolDefault) -> str_eqb k str_NAME = false -> LookOK s reg k r.
+Proof. exact lookok_default_policy. Qed.
+Print Assumptions C13_lookup_hypothesis_default_policy.
+
+(* the former witness of C13-K3: child 10 carries the identifier x; exact pattern, registered and
+   deregistered lookups, and the wildcard form agree *)
+Example C13_default_policy_hypotheses_satisfiable :
+  (forall p t, nstab ex_id p = Some t -> ns_pol t = PolDefault) /\ str_eqb str_IDENT str_NAME = false /\
+  query_instances ex_id (mkQ true true false str_IDENT (fun _ => true)) 100 [IE 5] false true [s2l "x"] = WOk [10] /\
+  query_instances ex_id (mkQ false true false str_IDENT (fun _ => true)) 100 [IE 5] false true [s2l "x"] = WOk [10] /\
+  query_instances ex_id (mkQ true true false str_IDENT (fun _ => true)) 100 [IE 5] false true [s2l "x*"] = WOk [10].
+Proof. exact ex_default_policy. Qed.
+
+(* for a key without a registered lookup (user keys), or with the lookups deregistered, the hypothesis
+   holds outright: global_service.lookup scans the children and returns every child carrying the
+   value (finding C13-K5 repaired: it used to return the first one only) *)
+Theorem C13_lookup_hypothesis_for_scanned_keys : forall s reg k r,
+  reg && registered_key k = false -> LookOK s reg k r.
+Proof. exact lookok_scan. Qed.
+Print Assumptions C13_lookup_hypothesis_for_scanned_keys.
+
+(* the former witness of C13-K5: children 1 and 2 share the value v under a user key; the exact
+   pattern v selects both, like v* *)
+Definition k5_key (e : id) : option str := match e with 1 | 2 => Some (s2l "v") | _ => None end.
+Example C13_scanned_keys_example :
+  true && registered_key (s2l "USER.k") = false /\
+  run_query true false k5_key false BNames [(Filter.scan_lookup k5_key [1; 2; 3], [1; 2; 3])] [] [s2l "v"] = [1; 2] /\
+  run_query true false k5_key false BNames [(Filter.scan_lookup k5_key [1; 2; 3], [1; 2; 3])] [] [s2l "v*"] = [1; 2].
+Proof. vm_compute. repeat split; reflexivity. Qed.
 
 Example C13_enumeration_hypotheses_satisfiable :
   QWF ex /\ LookOK ex true str_NAME RChildren /\ LookOK ex false str_NAME RDefs /\
@@ -229,20 +265,24 @@ Theorem C13_get_instances : forall s, QWF s -> forall o fuel root rec inside pat
 Proof. exact query_instances_spec. Qed.
 Print Assumptions C13_get_instances.
 
-(* no element twice when the root reaches nothing for the name-map stage (a definition, library or
-   netlist with selection INSIDE) *)
-Theorem C13_get_instances_NoDup : forall s, QWF s -> forall o fuel root rec inside pats res,
-  (forall e, ~ reachB_instances s rec inside root e) ->
-  query_instances s o fuel [root] rec inside pats = WOk res -> NoDup res.
+(* no element twice, for any collection of roots *)
+Theorem C13_get_instances_NoDup : forall s o fuel roots rec inside pats res,
+  query_instances s o fuel roots rec inside pats = WOk res -> NoDup res.
 Proof. exact query_instances_NoDup. Qed.
 Print Assumptions C13_get_instances_NoDup.
 
-(* ... but not from every root: get_instances(instance, ['a', 'a*']) yields child a twice (finding
-   C13-K1), on a netlist reached by editing calls; replayed on the implementation on every run *)
+(* the statement that findings C13-K1 / C13-K2 refuted before the repair; its former witness
+   get_instances(instance u, ['a', 'a*']) on a netlist reached by editing calls now yields child a once,
+   and so does get_instances([definition, instance of it], 'a*'); replayed on the implementation on every run *)
 Definition C13_get_instances_NoDup_full : Prop := instances_nodup_full.
-Theorem C13_get_instances_NoDup_refuted : ~ C13_get_instances_NoDup_full.
-Proof. exact instances_nodup_refuted. Qed.
-Print Assumptions C13_get_instances_NoDup_refuted.
+Theorem C13_get_instances_NoDup_holds : C13_get_instances_NoDup_full.
+Proof. exact instances_nodup_holds. Qed.
+Print Assumptions C13_get_instances_NoDup_holds.
+
+Example C13_get_instances_former_witness :
+  query_instances ex (opt_name true) 100 [IE 14] false true [s2l "a"; s2l "a*"] = WOk [10; 11] /\
+  query_instances ex (opt_name true) 100 [IE 5; IE 14] false true [s2l "a*"] = WOk [10; 11].
+Proof. split; [exact ex_instances_once|exact ex_instances_once_collection]. Qed.
 
 (* for any COLLECTION of roots: the result for a pattern list is the unfiltered result restricted to
    the matching elements; the order of the patterns is irrelevant; with and without the fast lookup
@@ -291,9 +331,8 @@ Theorem C13_get_definitions : forall s, QWF s -> forall o fuel root rec inside p
 Proof. exact query_definitions_spec. Qed.
 Print Assumptions C13_get_definitions.
 
-Theorem C13_get_definitions_NoDup : forall s, QWF s -> forall o fuel root rec inside pats res,
-  (forall e, ~ reachB_definitions s rec inside root e) ->
-  query_definitions s o fuel [root] rec inside pats = WOk res -> NoDup res.
+Theorem C13_get_definitions_NoDup : forall s o fuel roots rec inside pats res,
+  query_definitions s o fuel roots rec inside pats = WOk res -> NoDup res.
 Proof. exact query_definitions_NoDup. Qed.
 Print Assumptions C13_get_definitions_NoDup.
 
@@ -365,10 +404,8 @@ Theorem C13_get_libraries_refuted : ~ C13_get_libraries_full.
 Proof. exact libraries_full_refuted. Qed.
 Print Assumptions C13_get_libraries_refuted.
 
-Theorem C13_get_libraries_NoDup : forall s, QWF s -> forall o fuel root rec inside pats res,
-  (forall e, ~ reachB_libraries s rec inside root e) ->
-  ~ (rec = true /\ inside = false /\ exists x, item_owner s root x /\ kind_of s x = Some KInstance) ->
-  query_libraries s o fuel [root] rec inside pats = WOk res -> NoDup res.
+Theorem C13_get_libraries_NoDup : forall s o fuel roots rec inside pats res,
+  query_libraries s o fuel roots rec inside pats = WOk res -> NoDup res.
 Proof. exact query_libraries_NoDup. Qed.
 Print Assumptions C13_get_libraries_NoDup.
 
